@@ -972,3 +972,636 @@ Theorem C11_triangular_guard_binary64 :
     (is_lower_triangular_rows (FO tbl) (unflatten a n n) n n = true -> lower_triangular (map B2Rf a) n) /\
     (is_upper_triangular_rows (FO tbl) (unflatten a n n) n = true -> upper_triangular (map B2Rf a) n).
 Proof. exact (fun tbl a n => conj (lower_guard_triangular tbl a n) (upper_guard_triangular tbl a n)). Qed.
+
+(** ** Floating point (extension): the residual form of the backward error of the triangular solves on binary64 WITHOUT
+    the "no product underflows" and "no quotient underflows" hypotheses
+
+    A correctly rounded binary64 product or quotient that does not overflow satisfies |fl(r) - r| <= 2^-53 |fl(r)| + 2^-1075
+    for EVERY exact value r (normal, subnormal or zero; 2^-1075 is half the spacing of the subnormal numbers); additions and
+    subtractions need no absolute term.  With u = 2^-53, gamma = (1+u)^n - 1: the COMPUTED solution x of T x = b satisfies,
+    row by row,
+         | b_i - Sigma_j T_ij x_j |  <=  gamma * Sigma_j |T_ij| |x_j|  +  2^-1075 * ( n (1+u)^n + (1+u) |T_ii| )
+    (each of the at most n underflowing products of the row contributes 2^-1075, amplified by the later additions; the
+    quotient contributes 2^-1075 scaled by the diagonal entry).  Hypotheses: the diagonal is nonzero and the computed x is
+    finite (no overflow anywhere), nothing else.  The theorems of the previous section are the special case in which the
+    absolute term is not needed.  The perturbed-matrix form does not survive underflow as it stands (an absolute residual
+    cannot be charged to a relative perturbation of T alone): the residual form comes first, the perturbed form
+    (T') x = b + db, with [b] perturbed by at most the absolute term, at the end of the section. *)
+From Compute Require Import Proofs.C04ErrGen Proofs.C11_FloatGen.
+
+Theorem C11_rounding_error_binary64_general_rounded :
+  forall r : R, Rabs (rnd64 r - r) <= / 2 ^ 53 * Rabs (rnd64 r) + / 2 ^ 1075.
+Proof. intros r. rewrite <- u64_val, <- eta64_val. apply rnd64_gen_round. Qed.
+
+Theorem C11_forward_substitution_residual_binary64_general :
+  forall (tbl : libm_table) (l b x : list float) (n : nat),
+    forward_substitution (FO tbl) l b = Some x -> (n * n)%nat = length l ->
+    (forall i, (i < n)%nat -> B2Rf (nth (i * n + i) l 0%float) <> 0) ->
+    Forall finite x ->
+    let T := map B2Rf l in let B := map B2Rf b in let X := map B2Rf x in
+    let gamma := (1 + / 2 ^ 53) ^ n - 1 in
+    Forall finite b /\
+    (forall i, (i < n)%nat ->
+       Rabs (nth i B 0 - rsum (fun k => lower_part T n i k * nth k X 0) n)
+       <= gamma * rsum (fun k => Rabs (lower_part T n i k) * Rabs (nth k X 0)) n
+          + / 2 ^ 1075 * (INR n * (1 + / 2 ^ 53) ^ n + (1 + / 2 ^ 53) * Rabs (B2Rf (nth (i * n + i) l 0%float)))).
+Proof.
+  exact (fun tbl l b x n Hrun Hn Hd Hf =>
+           conj (fwd_F_rhs_finite_general tbl l b x n Hrun Hn Hd Hf) (fwd_F_residual_general tbl l b x n Hrun Hn Hd Hf)).
+Qed.
+
+(** row i of the forward solve has the constants (1+u)^(i+1) - 1 and i (1+u)^i (a dot product of i terms) *)
+Theorem C11_forward_substitution_residual_rowwise_binary64_general :
+  forall (tbl : libm_table) (l b x : list float) (n : nat),
+    forward_substitution (FO tbl) l b = Some x -> (n * n)%nat = length l ->
+    (forall i, (i < n)%nat -> B2Rf (nth (i * n + i) l 0%float) <> 0) ->
+    Forall finite x ->
+    forall i, (i < n)%nat ->
+      Rabs (nth i (map B2Rf b) 0 - rsum (fun k => lower_part (map B2Rf l) n i k * nth k (map B2Rf x) 0) n)
+      <= ((1 + / 2 ^ 53) ^ S i - 1)
+         * rsum (fun k => Rabs (lower_part (map B2Rf l) n i k) * Rabs (nth k (map B2Rf x) 0)) n
+         + / 2 ^ 1075 * (INR i * (1 + / 2 ^ 53) ^ i + (1 + / 2 ^ 53) * Rabs (B2Rf (nth (i * n + i) l 0%float))).
+Proof. exact fwd_F_rowwise_general. Qed.
+
+Theorem C11_backward_substitution_residual_binary64_general :
+  forall (tbl : libm_table) (u b x : list float) (n : nat),
+    backward_substitution (FO tbl) u b = Some x -> (n * n)%nat = length u ->
+    (forall i, (i < n)%nat -> B2Rf (nth (i * n + i) u 0%float) <> 0) ->
+    Forall finite x ->
+    let T := map B2Rf u in let B := map B2Rf b in let X := map B2Rf x in
+    let gamma := (1 + / 2 ^ 53) ^ n - 1 in
+    Forall finite b /\
+    (forall i, (i < n)%nat ->
+       Rabs (nth i B 0 - rsum (fun k => upper_part T n i k * nth k X 0) n)
+       <= gamma * rsum (fun k => Rabs (upper_part T n i k) * Rabs (nth k X 0)) n
+          + / 2 ^ 1075 * (INR n * (1 + / 2 ^ 53) ^ n + (1 + / 2 ^ 53) * Rabs (B2Rf (nth (i * n + i) u 0%float)))).
+Proof.
+  exact (fun tbl u b x n Hrun Hn Hd Hf =>
+           conj (bwd_F_rhs_finite_general tbl u b x n Hrun Hn Hd Hf) (bwd_F_residual_general tbl u b x n Hrun Hn Hd Hf)).
+Qed.
+
+(** row i of the backward solve: (1+u)^(n-i) - 1 and (n-i-1) (1+u)^(n-i-1) *)
+Theorem C11_backward_substitution_residual_rowwise_binary64_general :
+  forall (tbl : libm_table) (u b x : list float) (n : nat),
+    backward_substitution (FO tbl) u b = Some x -> (n * n)%nat = length u ->
+    (forall i, (i < n)%nat -> B2Rf (nth (i * n + i) u 0%float) <> 0) ->
+    Forall finite x ->
+    forall i, (i < n)%nat ->
+      Rabs (nth i (map B2Rf b) 0 - rsum (fun k => upper_part (map B2Rf u) n i k * nth k (map B2Rf x) 0) n)
+      <= ((1 + / 2 ^ 53) ^ (n - i) - 1)
+         * rsum (fun k => Rabs (upper_part (map B2Rf u) n i k) * Rabs (nth k (map B2Rf x) 0)) n
+         + / 2 ^ 1075 * (INR (n - S i) * (1 + / 2 ^ 53) ^ (n - S i)
+                         + (1 + / 2 ^ 53) * Rabs (B2Rf (nth (i * n + i) u 0%float))).
+Proof. exact bwd_F_rowwise_general. Qed.
+
+(** [cholesky_solve] = forward solve with L, [transpose], backward solve with L^T: the two residuals ([y] the computed
+    intermediate vector, [lt] the transposed array; entry (i,k) of L^T is [lower_part T n k i]) *)
+Theorem C11_cholesky_solve_residuals_binary64_general :
+  forall (tbl : libm_table) (l b y lt x : list float) (n : nat),
+    cholesky_solve (FO tbl) l b = Some x -> (n * n)%nat = length l ->
+    forward_substitution (FO tbl) l b = Some y -> transpose (FO tbl) l n = Some lt ->
+    (forall i, (i < n)%nat -> B2Rf (nth (i * n + i) l 0%float) <> 0) ->
+    Forall finite y -> Forall finite x ->
+    let T := map B2Rf l in let B := map B2Rf b in let Y := map B2Rf y in let X := map B2Rf x in
+    let gamma := (1 + / 2 ^ 53) ^ n - 1 in
+    (forall i, (i < n)%nat ->
+       Rabs (nth i B 0 - rsum (fun k => lower_part T n i k * nth k Y 0) n)
+       <= gamma * rsum (fun k => Rabs (lower_part T n i k) * Rabs (nth k Y 0)) n
+          + / 2 ^ 1075 * (INR n * (1 + / 2 ^ 53) ^ n + (1 + / 2 ^ 53) * Rabs (B2Rf (nth (i * n + i) l 0%float)))) /\
+    (forall i, (i < n)%nat ->
+       Rabs (nth i Y 0 - rsum (fun k => lower_part T n k i * nth k X 0) n)
+       <= gamma * rsum (fun k => Rabs (lower_part T n k i) * Rabs (nth k X 0)) n
+          + / 2 ^ 1075 * (INR n * (1 + / 2 ^ 53) ^ n + (1 + / 2 ^ 53) * Rabs (B2Rf (nth (i * n + i) l 0%float)))).
+Proof. exact cholesky_solve_residuals_general. Qed.
+
+(** an instance the theorems with the no-underflow hypotheses exclude: x_0 = 2^-500 and in row 1 the product
+    2^-600 * 2^-500 underflows; the solve is finite *)
+Example C11_example_forward_residual_general :
+  let l := [1; 0;  0x1p-600; 3]%float in let b := [0x1p-500; 1]%float in
+  exists x,
+    forward_substitution FO0 l b = Some x /\ (2 * 2)%nat = length l /\
+    (forall i, (i < 2)%nat -> B2Rf (nth (i * 2 + i) l 0%float) <> 0) /\
+    Forall finite x /\
+    ~ (B2Rf (nth (1 * 2 + 0) l 0%float) * B2Rf (nth 0 x 0%float) = 0 \/
+       / 2 ^ 1022 <= Rabs (B2Rf (nth (1 * 2 + 0) l 0%float) * B2Rf (nth 0 x 0%float))).
+Proof. exact forward_general_example. Qed.
+
+(** the perturbed form under underflow: the computed x is the EXACT solution of (T') x = b + db with T' triangular, within gamma
+    (entrywise, relatively) of the triangular part of T, and a right-hand-side perturbation |db_i| bounded by the absolute term
+    (the residual of row i is split between the two in the proportion gamma (|T||x|)_i : alpha_i) *)
+From Compute Require Import Proofs.C11_FloatGenP.
+Theorem C11_forward_substitution_backward_error_binary64_general :
+  forall (tbl : libm_table) (l b x : list float) (n : nat),
+    forward_substitution (FO tbl) l b = Some x -> (n * n)%nat = length l ->
+    (forall i, (i < n)%nat -> B2Rf (nth (i * n + i) l 0%float) <> 0) ->
+    Forall finite x ->
+    let T := map B2Rf l in let B := map B2Rf b in let X := map B2Rf x in
+    let gamma := (1 + / 2 ^ 53) ^ n - 1 in
+    let alpha := fun i => / 2 ^ 1075 * (INR n * (1 + / 2 ^ 53) ^ n + (1 + / 2 ^ 53) * Rabs (B2Rf (nth (i * n + i) l 0%float))) in
+    exists T' dB : list R,
+      length T' = (n * n)%nat /\ length dB = n /\ lower_triangular T' n /\
+      (forall i j, (i < n)%nat -> (j < n)%nat ->
+         Rabs (getm T' n i j - lower_part T n i j) <= gamma * Rabs (lower_part T n i j)) /\
+      (forall i, (i < n)%nat -> Rabs (nth i dB 0) <= alpha i) /\
+      (forall i, (i < n)%nat -> mvec T' n X i = nth i B 0 + nth i dB 0).
+Proof. exact forward_substitution_backward_error_general. Qed.
+
+Theorem C11_backward_substitution_backward_error_binary64_general :
+  forall (tbl : libm_table) (u b x : list float) (n : nat),
+    backward_substitution (FO tbl) u b = Some x -> (n * n)%nat = length u ->
+    (forall i, (i < n)%nat -> B2Rf (nth (i * n + i) u 0%float) <> 0) ->
+    Forall finite x ->
+    let T := map B2Rf u in let B := map B2Rf b in let X := map B2Rf x in
+    let gamma := (1 + / 2 ^ 53) ^ n - 1 in
+    let alpha := fun i => / 2 ^ 1075 * (INR n * (1 + / 2 ^ 53) ^ n + (1 + / 2 ^ 53) * Rabs (B2Rf (nth (i * n + i) u 0%float))) in
+    exists T' dB : list R,
+      length T' = (n * n)%nat /\ length dB = n /\ upper_triangular T' n /\
+      (forall i j, (i < n)%nat -> (j < n)%nat ->
+         Rabs (getm T' n i j - upper_part T n i j) <= gamma * Rabs (upper_part T n i j)) /\
+      (forall i, (i < n)%nat -> Rabs (nth i dB 0) <= alpha i) /\
+      (forall i, (i < n)%nat -> mvec T' n X i = nth i B 0 + nth i dB 0).
+Proof. exact backward_substitution_backward_error_general. Qed.
+
+(** the general residual / perturbed-system equivalence used above (any matrix part P, any bounds g >= 0, a_i >= 0) *)
+Theorem C11_residual_bound_abs_gives_perturbed_system :
+  forall (P : nat -> nat -> R) (X B : list R) (g : R) (a : nat -> R) (n : nat),
+    0 <= g -> (forall i, (i < n)%nat -> 0 <= a i) ->
+    (forall i, (i < n)%nat ->
+       Rabs (nth i B 0 - rsum (fun k => P i k * nth k X 0) n)
+       <= g * rsum (fun k => Rabs (P i k) * Rabs (nth k X 0)) n + a i) ->
+    exists T' dB : list R,
+      length T' = (n * n)%nat /\ length dB = n /\
+      (forall i j, (i < n)%nat -> (j < n)%nat -> Rabs (getm T' n i j - P i j) <= g * Rabs (P i j)) /\
+      (forall i, (i < n)%nat -> Rabs (nth i dB 0) <= a i) /\
+      (forall i, (i < n)%nat -> mvec T' n X i = nth i B 0 + nth i dB 0).
+Proof. exact perturbed_matrix_abs. Qed.
+
+(** a triangular argument, and the [Matrix] forms (whose receiver is checked to be triangular): the residual reads with the
+    matrix itself *)
+Theorem C11_forward_substitution_residual_triangular_binary64_general :
+  forall (tbl : libm_table) (l b x : list float) (n : nat),
+    forward_substitution (FO tbl) l b = Some x -> (n * n)%nat = length l ->
+    lower_triangular (map B2Rf l) n ->
+    (forall i, (i < n)%nat -> B2Rf (nth (i * n + i) l 0%float) <> 0) ->
+    Forall finite x ->
+    let T := map B2Rf l in let B := map B2Rf b in let X := map B2Rf x in
+    let gamma := (1 + / 2 ^ 53) ^ n - 1 in
+    forall i, (i < n)%nat ->
+      Rabs (nth i B 0 - mvec T n X i)
+      <= gamma * rsum (fun k => Rabs (getm T n i k) * Rabs (nth k X 0)) n
+         + / 2 ^ 1075 * (INR n * (1 + / 2 ^ 53) ^ n + (1 + / 2 ^ 53) * Rabs (getm T n i i)).
+Proof. exact forward_substitution_residual_triangular_general. Qed.
+
+Theorem C11_backward_substitution_residual_triangular_binary64_general :
+  forall (tbl : libm_table) (u b x : list float) (n : nat),
+    backward_substitution (FO tbl) u b = Some x -> (n * n)%nat = length u ->
+    upper_triangular (map B2Rf u) n ->
+    (forall i, (i < n)%nat -> B2Rf (nth (i * n + i) u 0%float) <> 0) ->
+    Forall finite x ->
+    let T := map B2Rf u in let B := map B2Rf b in let X := map B2Rf x in
+    let gamma := (1 + / 2 ^ 53) ^ n - 1 in
+    forall i, (i < n)%nat ->
+      Rabs (nth i B 0 - mvec T n X i)
+      <= gamma * rsum (fun k => Rabs (getm T n i k) * Rabs (nth k X 0)) n
+         + / 2 ^ 1075 * (INR n * (1 + / 2 ^ 53) ^ n + (1 + / 2 ^ 53) * Rabs (getm T n i i)).
+Proof. exact backward_substitution_residual_triangular_general. Qed.
+
+Theorem C11_matrix_forward_substitution_residual_binary64_general :
+  forall (tbl : libm_table) (m : matrix (T:=float)) (b x : list float),
+    matrix_forward_substitution (FO tbl) m b = Some x ->
+    let n := nr m in let l := dat m in
+    (forall i, (i < n)%nat -> B2Rf (nth (i * n + i) l 0%float) <> 0) ->
+    Forall finite x ->
+    let T := map B2Rf l in let B := map B2Rf b in let X := map B2Rf x in
+    let gamma := (1 + / 2 ^ 53) ^ n - 1 in
+    forall i, (i < n)%nat ->
+      Rabs (nth i B 0 - mvec T n X i)
+      <= gamma * rsum (fun k => Rabs (getm T n i k) * Rabs (nth k X 0)) n
+         + / 2 ^ 1075 * (INR n * (1 + / 2 ^ 53) ^ n + (1 + / 2 ^ 53) * Rabs (getm T n i i)).
+Proof. exact matrix_forward_substitution_residual_general. Qed.
+
+Theorem C11_matrix_backward_substitution_residual_binary64_general :
+  forall (tbl : libm_table) (m : matrix (T:=float)) (b x : list float),
+    matrix_backward_substitution (FO tbl) m b = Some x ->
+    let n := nr m in let u := dat m in
+    (forall i, (i < n)%nat -> B2Rf (nth (i * n + i) u 0%float) <> 0) ->
+    Forall finite x ->
+    let T := map B2Rf u in let B := map B2Rf b in let X := map B2Rf x in
+    let gamma := (1 + / 2 ^ 53) ^ n - 1 in
+    forall i, (i < n)%nat ->
+      Rabs (nth i B 0 - mvec T n X i)
+      <= gamma * rsum (fun k => Rabs (getm T n i k) * Rabs (nth k X 0)) n
+         + / 2 ^ 1075 * (INR n * (1 + / 2 ^ 53) ^ n + (1 + / 2 ^ 53) * Rabs (getm T n i i)).
+Proof. exact matrix_backward_substitution_residual_general. Qed.
+(** ** Floating point (extension, second link): BACKWARD ERROR OF THE CHOLESKY FACTORISATION on binary64
+
+    Classical statement (Higham, Accuracy and Stability of Numerical Algorithms, Thm 10.3): the COMPUTED factor L of a
+    symmetric matrix A satisfies, componentwise,
+         | A - L L^T |_ij  <=  gamma_(n+1) (|L| |L^T|)_ij ,      gamma_(n+1) = (1 + 2^-53)^(n+1) - 1 ,  n the order.
+    It is proved here for the SAME model terms ([cholesky] / [matrix_cholesky] of Model/Cholesky.v at the carrier
+    [FO tbl], primitive binary64) that the correspondence check compares bit for bit with the Rust code and that Tie A
+    re-derives from the source, i.e. for the code's own operation tree: row by row (Cholesky-Banachiewicz),
+         l_ij = fl( fl( a_ij - dot(l_j[..j], l_i[..j]) ) / l_jj )  (j < i),   l_ii = fl( sqrt( fl( a_ii - dot(l_i[..i], l_i[..i]) ) ) ),
+    [dot] the 8-way unrolled [dot_raw] (the recurrence below, every carrier, identifies these subterms).
+    Hypotheses, all explicit:  the model returns [Some l] (A square, symmetric within the code's relative tolerance,
+    every pivot passed [d > 0]);  every entry of the computed factor is finite (this forces every intermediate value
+    and every entry of A that is read to be finite: no overflow anywhere);  no product l_jk * l_ik (k < j <= i, squares
+    included) underflows;  no quotient s_ij / l_jj underflows, s_ij = a_ij - dot(..) written out as the subterm of the
+    model that it is.  The square root needs no condition (it never underflows), nor does the subtraction.
+    The routine reads only the lower triangle of A, so the bound is stated for j <= i with no symmetry assumption at
+    all, and for every i, j when the real values of A are exactly symmetric.  The diagonal of L is proved positive
+    (hence nonzero: the hypothesis of the triangular-solve theorems above), L lower triangular. *)
+From Compute Require Import Proofs.C11_FloatChol Proofs.C11_FloatCholEx.
+
+(** the recurrence satisfied by the returned factor on EVERY carrier (hence bit for bit on binary64):
+    the slices are those of the Rust code, [&l[j*n..j*n+j]] and [&l[i*n..i*n+j]] *)
+Theorem C11_cholesky_recurrence :
+  forall (T : Type) (O : Ops T) (a l : list T) (n : nat),
+    cholesky O a = Some l -> (n * n)%nat = length a ->
+    length l = (n * n)%nat /\
+    forall i, (i < n)%nat ->
+      (forall j, (i < j)%nat -> (j < n)%nat -> nth (i * n + j) l (zero O) = zero O) /\
+      (exists d, ltb O (zero O) d = true /\ nth (i * n + i) l (zero O) = sqrt O d) /\
+      nth (i * n + i) l (zero O) =
+        sqrt O (sub O (nth (i * n + i) a (zero O))
+                      (dot_raw O (firstn i (skipn (i * n) l)) (firstn i (skipn (i * n) l)))) /\
+      (forall j, (j < i)%nat ->
+         nth (i * n + j) l (zero O) =
+         div O (sub O (nth (i * n + j) a (zero O)) (dot_raw O (firstn j (skipn (j * n) l)) (firstn j (skipn (i * n) l))))
+               (nth (j * n + j) l (zero O))).
+Proof. exact @cholesky_recurrence. Qed.
+
+(** the theorem, slice form ([cholesky] of cholesky.rs), every order n *)
+Theorem C11_cholesky_backward_error_binary64 :
+  forall (tbl : libm_table) (a l : list float) (n : nat),
+    cholesky (FO tbl) a = Some l -> (n * n)%nat = length a ->
+    Forall finite l ->
+    (forall i j k, (i < n)%nat -> (j <= i)%nat -> (k < j)%nat ->
+       B2Rf (nth (j * n + k) l 0%float) * B2Rf (nth (i * n + k) l 0%float) = 0 \/
+       / 2 ^ 1022 <= Rabs (B2Rf (nth (j * n + k) l 0%float) * B2Rf (nth (i * n + k) l 0%float))) ->
+    (forall i j, (i < n)%nat -> (j < i)%nat ->
+       let s := (nth (i * n + j) a 0 - dot_raw (FO tbl) (firstn j (skipn (j * n) l)) (firstn j (skipn (i * n) l)))%float in
+       B2Rf s / B2Rf (nth (j * n + j) l 0%float) = 0 \/ / 2 ^ 1022 <= Rabs (B2Rf s / B2Rf (nth (j * n + j) l 0%float))) ->
+    let A := map B2Rf a in let L := map B2Rf l in
+    let gamma := (1 + / 2 ^ 53) ^ (n + 1) - 1 in
+    length l = (n * n)%nat /\ lower_triangular L n /\ (forall i, (i < n)%nat -> 0 < getm L n i i) /\
+    (forall i j, (i < n)%nat -> (j <= i)%nat -> finite (nth (i * n + j) a 0%float)) /\
+    (forall i j, (i < n)%nat -> (j <= i)%nat ->
+       Rabs (getm A n i j - rsum (fun k => getm L n i k * getm L n j k) n)
+       <= gamma * rsum (fun k => Rabs (getm L n i k) * Rabs (getm L n j k)) n) /\
+    (symmetric A n ->
+     forall i j, (i < n)%nat -> (j < n)%nat ->
+       Rabs (getm A n i j - rsum (fun k => getm L n i k * getm L n j k) n)
+       <= gamma * rsum (fun k => Rabs (getm L n i k) * Rabs (getm L n j k)) n).
+Proof. exact cholesky_backward_error. Qed.
+
+(** entry by entry the constant is smaller: (1 + 2^-53)^(j+1) - 1 off the diagonal (j products and additions, one
+    subtraction, one division), (1 + 2^-53)^max(i+1,3) - 1 on it (one subtraction, one square root counted twice;
+    exponent 2 for the first pivot, whose subtraction is exact) *)
+Theorem C11_cholesky_backward_error_entrywise_binary64 :
+  forall (tbl : libm_table) (a l : list float) (n : nat),
+    cholesky (FO tbl) a = Some l -> (n * n)%nat = length a ->
+    Forall finite l ->
+    (forall i j k, (i < n)%nat -> (j <= i)%nat -> (k < j)%nat ->
+       B2Rf (nth (j * n + k) l 0%float) * B2Rf (nth (i * n + k) l 0%float) = 0 \/
+       / 2 ^ 1022 <= Rabs (B2Rf (nth (j * n + k) l 0%float) * B2Rf (nth (i * n + k) l 0%float))) ->
+    (forall i j, (i < n)%nat -> (j < i)%nat ->
+       let s := (nth (i * n + j) a 0 - dot_raw (FO tbl) (firstn j (skipn (j * n) l)) (firstn j (skipn (i * n) l)))%float in
+       B2Rf s / B2Rf (nth (j * n + j) l 0%float) = 0 \/ / 2 ^ 1022 <= Rabs (B2Rf s / B2Rf (nth (j * n + j) l 0%float))) ->
+    let A := map B2Rf a in let L := map B2Rf l in
+    forall i j, (i < n)%nat -> (j <= i)%nat ->
+      Rabs (getm A n i j - rsum (fun k => getm L n i k * getm L n j k) n)
+      <= ((1 + / 2 ^ 53) ^ (if (j <? i)%nat then S j else match i with 0%nat => 2%nat | _ => Nat.max (S i) 3 end) - 1)
+         * rsum (fun k => Rabs (getm L n i k) * Rabs (getm L n j k)) n.
+Proof. exact cholesky_backward_error_entrywise. Qed.
+
+(** [Matrix::cholesky]: the dot products run over the whole rows (the tail of row i is still zero: [pad]); same bound *)
+Theorem C11_cholesky_backward_error_matrix_binary64 :
+  forall (tbl : libm_table) (m r : matrix (T:=float)),
+    matrix_cholesky (FO tbl) m = Some r ->
+    let n := nr m in let a := dat m in let l := dat r in
+    Forall finite l ->
+    (forall i j k, (i < n)%nat -> (j <= i)%nat -> (k < j)%nat ->
+       B2Rf (nth (j * n + k) l 0%float) * B2Rf (nth (i * n + k) l 0%float) = 0 \/
+       / 2 ^ 1022 <= Rabs (B2Rf (nth (j * n + k) l 0%float) * B2Rf (nth (i * n + k) l 0%float))) ->
+    (forall i j, (i < n)%nat -> (j < i)%nat ->
+       let s := (nth (i * n + j) a 0
+                 - dot_raw (FO tbl) (firstn n (skipn (j * n) l)) (pad (FO tbl) n (firstn j (skipn (i * n) l))))%float in
+       B2Rf s / B2Rf (nth (j * n + j) l 0%float) = 0 \/ / 2 ^ 1022 <= Rabs (B2Rf s / B2Rf (nth (j * n + j) l 0%float))) ->
+    let A := map B2Rf a in let L := map B2Rf l in
+    let gamma := (1 + / 2 ^ 53) ^ (n + 1) - 1 in
+    nr r = n /\ nc r = n /\ nc m = n /\ length a = (n * n)%nat /\ length l = (n * n)%nat /\
+    lower_triangular L n /\ (forall i, (i < n)%nat -> 0 < getm L n i i) /\
+    (forall i j, (i < n)%nat -> (j <= i)%nat -> finite (nth (i * n + j) a 0%float)) /\
+    (forall i j, (i < n)%nat -> (j <= i)%nat ->
+       Rabs (getm A n i j - rsum (fun k => getm L n i k * getm L n j k) n)
+       <= gamma * rsum (fun k => Rabs (getm L n i k) * Rabs (getm L n j k)) n) /\
+    (symmetric A n ->
+     forall i j, (i < n)%nat -> (j < n)%nat ->
+       Rabs (getm A n i j - rsum (fun k => getm L n i k * getm L n j k) n)
+       <= gamma * rsum (fun k => Rabs (getm L n i k) * Rabs (getm L n j k)) n).
+Proof. exact matrix_cholesky_backward_error. Qed.
+
+(** the side conditions can be checked on COMPUTED values (with [C04_computed_normal_product_suffices] and
+    [C11_computed_normal_quotient_suffices]): every nonzero-by-structure entry l_ij (j <= i) finite and above 2^-1022
+    in magnitude, every computed product fl(l_jk l_ik) finite and above 2^-1022 *)
+Theorem C11_cholesky_conditions_from_computed_values :
+  forall (tbl : libm_table) (a l : list float) (n : nat),
+    cholesky (FO tbl) a = Some l -> (n * n)%nat = length a ->
+    Forall finite l ->
+    (forall i j, (i < n)%nat -> (j < i)%nat -> / 2 ^ 1022 < Rabs (B2Rf (nth (i * n + j) l 0%float))) ->
+    (forall i j k, (i < n)%nat -> (j <= i)%nat -> (k < j)%nat ->
+       finite (nth (j * n + k) l 0 * nth (i * n + k) l 0)%float /\
+       / 2 ^ 1022 < Rabs (B2Rf (nth (j * n + k) l 0 * nth (i * n + k) l 0)%float)) ->
+    (forall i j k, (i < n)%nat -> (j <= i)%nat -> (k < j)%nat ->
+       B2Rf (nth (j * n + k) l 0%float) * B2Rf (nth (i * n + k) l 0%float) = 0 \/
+       / 2 ^ 1022 <= Rabs (B2Rf (nth (j * n + k) l 0%float) * B2Rf (nth (i * n + k) l 0%float))) /\
+    (forall i j, (i < n)%nat -> (j < i)%nat ->
+       let s := (nth (i * n + j) a 0 - dot_raw (FO tbl) (firstn j (skipn (j * n) l)) (firstn j (skipn (i * n) l)))%float in
+       B2Rf s / B2Rf (nth (j * n + j) l 0%float) = 0 \/ / 2 ^ 1022 <= Rabs (B2Rf s / B2Rf (nth (j * n + j) l 0%float))).
+Proof. exact cholesky_conditions_from_computed. Qed.
+
+(** the hypotheses are satisfiable: the SPD matrix [[3,1,1],[1,3,1],[1,1,3]] (no entry of its factor is
+    representable: l_00 = sqrt 3, l_10 = 1 / sqrt 3, ...), factored inside Coq on binary64 *)
+Example C11_example_cholesky_backward_error :
+  let a := [3; 1; 1;  1; 3; 1;  1; 1; 3]%float in
+  exists l,
+    cholesky FO0 a = Some l /\ (3 * 3)%nat = length a /\
+    Forall finite l /\
+    (forall i j k, (i < 3)%nat -> (j <= i)%nat -> (k < j)%nat ->
+       B2Rf (nth (j * 3 + k) l 0%float) * B2Rf (nth (i * 3 + k) l 0%float) = 0 \/
+       / 2 ^ 1022 <= Rabs (B2Rf (nth (j * 3 + k) l 0%float) * B2Rf (nth (i * 3 + k) l 0%float))) /\
+    (forall i j, (i < 3)%nat -> (j < i)%nat ->
+       let s := (nth (i * 3 + j) a 0 - dot_raw FO0 (firstn j (skipn (j * 3) l)) (firstn j (skipn (i * 3) l)))%float in
+       B2Rf s / B2Rf (nth (j * 3 + j) l 0%float) = 0 \/ / 2 ^ 1022 <= Rabs (B2Rf s / B2Rf (nth (j * 3 + j) l 0%float))) /\
+    symmetric (map B2Rf a) 3 /\
+    B2Rf (nth 0 l 0%float) * B2Rf (nth 0 l 0%float) <> 3.
+Proof. exact cholesky_example. Qed.
+
+Example C11_example_cholesky_backward_error_matrix :
+  let m := {| nr := 3; nc := 3; dat := [3; 1; 1;  1; 3; 1;  1; 1; 3]%float |} in
+  exists r,
+    matrix_cholesky FO0 m = Some r /\
+    let n := nr m in let a := dat m in let l := dat r in
+    Forall finite l /\
+    (forall i j k, (i < n)%nat -> (j <= i)%nat -> (k < j)%nat ->
+       B2Rf (nth (j * n + k) l 0%float) * B2Rf (nth (i * n + k) l 0%float) = 0 \/
+       / 2 ^ 1022 <= Rabs (B2Rf (nth (j * n + k) l 0%float) * B2Rf (nth (i * n + k) l 0%float))) /\
+    (forall i j, (i < n)%nat -> (j < i)%nat ->
+       let s := (nth (i * n + j) a 0
+                 - dot_raw FO0 (firstn n (skipn (j * n) l)) (pad FO0 n (firstn j (skipn (i * n) l))))%float in
+       B2Rf s / B2Rf (nth (j * n + j) l 0%float) = 0 \/ / 2 ^ 1022 <= Rabs (B2Rf s / B2Rf (nth (j * n + j) l 0%float))) /\
+    symmetric (map B2Rf a) n.
+Proof. exact matrix_cholesky_example. Qed.
+
+(** ** Floating point (extension, third link): BACKWARD ERROR OF THE LU FACTORISATION WITH PARTIAL PIVOTING on binary64
+
+    Classical statement (Higham, Thm 9.3, for the row-permuted matrix): the COMPUTED factors of [lu] satisfy
+         | P A - L U |_ij  <=  gamma_n (|L| |U|)_ij ,      gamma_n = (1 + 2^-53)^n - 1 ,
+    for EVERY run, whatever rows partial pivoting exchanges: row i of P A is row [nth i piv 0] of A, [piv] the returned
+    pivot vector (proved to be a permutation on every carrier), [Lof m n i k] / [Uof m n k j] (Spec/Factor.v) the unit
+    lower / upper triangular factors packed in the returned array [m] — the same form as the exact-arithmetic
+    [C11_lu_reconstructs].  The sweep is the column-oriented Doolittle elimination of the code,
+         u_ij = fl( a'_ij - s_ij )  (i <= j),    l_ij = fl( fl( a'_ij - s_ij ) / u_jj )  (i > j),    a' = P A,
+         s_ij = the plain loop  s = 0; for k in 0..min(i,j) { s += lu[i*n+k] * lu[k*n+j] }   (NOT the unrolled [dot]),
+    identified as subterms of the model by the recurrence below, which holds on EVERY carrier, bit for bit: the rows
+    of the array and the entries of the pivot vector are exchanged together, the rows above the current column are
+    never moved again, and a row below it is updated with the same operands in the same order wherever it sits, so
+    the factors are those of the exchange-free sweep applied to P A.
+    Hypotheses, all explicit: every entry of the computed array finite (no overflow anywhere; A is then finite);
+    nonzero pivots u_jj (a zero pivot skips the scaling — with partial pivoting the column is then zero —: not
+    treated);  no product l_ik u_kj and no quotient (a'_ij - s_ij) / u_jj underflows.
+    NOT proved: [lu_solve]'s column sweeps, hence the end-to-end error of the LU branch of [solve]; the zero-pivot case. *)
+From Compute Require Import Proofs.C11_FloatLU.
+
+Theorem C11_lu_recurrence :
+  forall (T : Type) (O : Ops T) (a m : list T) (piv : list nat) (n : nat),
+    lu O a = Some (m, piv) -> (n * n)%nat = length a ->
+    length m = (n * n)%nat /\ is_perm piv n /\
+    forall i j, (i < n)%nat -> (j < n)%nat -> eqb O (nth (j * n + j) m (zero O)) (zero O) = false ->
+      let s := sub O (nth (nth i piv 0%nat * n + j) a (zero O))
+                     (fold_left (fun acc k => add O acc (mul O (nth (i * n + k) m (zero O)) (nth (k * n + j) m (zero O))))
+                                (seq 0 (Nat.min i j)) (zero O)) in
+      nth (i * n + j) m (zero O) = if (j <? i)%nat then div O s (nth (j * n + j) m (zero O)) else s.
+Proof. exact @lu_pivoted_recurrence. Qed.
+
+Theorem C11_lu_backward_error_binary64 :
+  forall (tbl : libm_table) (a m : list float) (piv : list nat) (n : nat),
+    lu (FO tbl) a = Some (m, piv) -> (n * n)%nat = length a ->
+    Forall finite m ->
+    (forall j, (j < n)%nat -> B2Rf (nth (j * n + j) m 0%float) <> 0) ->
+    (forall i j k, (i < n)%nat -> (j < n)%nat -> (k < Nat.min i j)%nat ->
+       B2Rf (nth (i * n + k) m 0%float) * B2Rf (nth (k * n + j) m 0%float) = 0 \/
+       / 2 ^ 1022 <= Rabs (B2Rf (nth (i * n + k) m 0%float) * B2Rf (nth (k * n + j) m 0%float))) ->
+    (forall i j, (i < n)%nat -> (j < i)%nat ->
+       let s := (nth (nth i piv 0%nat * n + j) a 0
+                 - fold_left (fun acc k => acc + nth (i * n + k) m 0 * nth (k * n + j) m 0) (seq 0 j) 0)%float in
+       B2Rf s / B2Rf (nth (j * n + j) m 0%float) = 0 \/ / 2 ^ 1022 <= Rabs (B2Rf s / B2Rf (nth (j * n + j) m 0%float))) ->
+    let A := map B2Rf a in let M := map B2Rf m in
+    let gamma := (1 + / 2 ^ 53) ^ n - 1 in
+    length m = (n * n)%nat /\ is_perm piv n /\ Forall finite a /\
+    forall i j, (i < n)%nat -> (j < n)%nat ->
+      Rabs (getm A n (nth i piv 0%nat) j - rsum (fun k => Lof M n i k * Uof M n k j) n)
+      <= gamma * rsum (fun k => Rabs (Lof M n i k) * Rabs (Uof M n k j)) n.
+Proof. exact lu_backward_error. Qed.
+
+(** [Matrix::lu] (same model, identical factors on every carrier: [C11_slice_eq_matrix_lu]) *)
+Theorem C11_lu_backward_error_matrix_binary64 :
+  forall (tbl : libm_table) (mm r : matrix (T:=float)) (piv : list nat),
+    matrix_lu (FO tbl) mm = Some (r, piv) ->
+    let n := nr mm in let a := dat mm in let m := dat r in
+    Forall finite m ->
+    (forall j, (j < n)%nat -> B2Rf (nth (j * n + j) m 0%float) <> 0) ->
+    (forall i j k, (i < n)%nat -> (j < n)%nat -> (k < Nat.min i j)%nat ->
+       B2Rf (nth (i * n + k) m 0%float) * B2Rf (nth (k * n + j) m 0%float) = 0 \/
+       / 2 ^ 1022 <= Rabs (B2Rf (nth (i * n + k) m 0%float) * B2Rf (nth (k * n + j) m 0%float))) ->
+    (forall i j, (i < n)%nat -> (j < i)%nat ->
+       let s := (nth (nth i piv 0%nat * n + j) a 0
+                 - fold_left (fun acc k => acc + nth (i * n + k) m 0 * nth (k * n + j) m 0) (seq 0 j) 0)%float in
+       B2Rf s / B2Rf (nth (j * n + j) m 0%float) = 0 \/ / 2 ^ 1022 <= Rabs (B2Rf s / B2Rf (nth (j * n + j) m 0%float))) ->
+    let A := map B2Rf a in let M := map B2Rf m in
+    let gamma := (1 + / 2 ^ 53) ^ n - 1 in
+    nr r = n /\ nc r = n /\ length m = (n * n)%nat /\ is_perm piv n /\ Forall finite a /\
+    forall i j, (i < n)%nat -> (j < n)%nat ->
+      Rabs (getm A n (nth i piv 0%nat) j - rsum (fun k => Lof M n i k * Uof M n k j) n)
+      <= gamma * rsum (fun k => Rabs (Lof M n i k) * Rabs (Uof M n k j)) n.
+Proof. exact matrix_lu_backward_error. Qed.
+
+(** the special case in which partial pivoting exchanges no row: the returned pivot vector is the identity [seq 0 n]
+    (position j of the vector is never touched after step j, so this means that no exchange happened at any step),
+    and the statement is about A itself.  (Proved first, hence the name; it is the theorem above at [piv = seq 0 n].) *)
+Theorem C11_lu_backward_error_no_row_swap_partial_binary64 :
+  forall (tbl : libm_table) (a m : list float) (n : nat),
+    lu (FO tbl) a = Some (m, seq 0 n) -> (n * n)%nat = length a ->
+    Forall finite m ->
+    (forall j, (j < n)%nat -> B2Rf (nth (j * n + j) m 0%float) <> 0) ->
+    (forall i j k, (i < n)%nat -> (j < n)%nat -> (k < Nat.min i j)%nat ->
+       B2Rf (nth (i * n + k) m 0%float) * B2Rf (nth (k * n + j) m 0%float) = 0 \/
+       / 2 ^ 1022 <= Rabs (B2Rf (nth (i * n + k) m 0%float) * B2Rf (nth (k * n + j) m 0%float))) ->
+    (forall i j, (i < n)%nat -> (j < i)%nat ->
+       let s := (nth (i * n + j) a 0
+                 - fold_left (fun acc k => acc + nth (i * n + k) m 0 * nth (k * n + j) m 0) (seq 0 j) 0)%float in
+       B2Rf s / B2Rf (nth (j * n + j) m 0%float) = 0 \/ / 2 ^ 1022 <= Rabs (B2Rf s / B2Rf (nth (j * n + j) m 0%float))) ->
+    let A := map B2Rf a in let M := map B2Rf m in
+    let gamma := (1 + / 2 ^ 53) ^ n - 1 in
+    length m = (n * n)%nat /\ Forall finite a /\
+    forall i j, (i < n)%nat -> (j < n)%nat ->
+      Rabs (getm A n i j - rsum (fun k => Lof M n i k * Uof M n k j) n)
+      <= gamma * rsum (fun k => Rabs (Lof M n i k) * Rabs (Uof M n k j)) n.
+Proof. exact lu_backward_error_no_row_swap. Qed.
+
+(** an identity pivot vector at the end means that the exchange-free sweep [ns_step] was run (every carrier) *)
+Theorem C11_lu_identity_pivots_means_no_exchange :
+  forall (T : Type) (O : Ops T) (n : nat) (M0 M' : list (list T)),
+    lu_rows O M0 n = (M', seq 0 n) ->
+    M' = fold_left (fun M j => scale_col O (set_col M j (col_update O M j n)) j) (seq 0 n) M0.
+Proof. exact @lu_rows_no_swap. Qed.
+
+(** satisfiable, WITH an exchange: rows 0 and 1 of [[1,3,1],[3,1,1],[1,1,3]] are exchanged at step 0
+    (pivot vector [1;0;2]; l_10 = fl(1/3), 3 l_10 <> 1) ... *)
+Example C11_example_lu_backward_error :
+  let a := [1; 3; 1;  3; 1; 1;  1; 1; 3]%float in
+  exists m piv,
+    lu FO0 a = Some (m, piv) /\ (3 * 3)%nat = length a /\ piv = [1; 0; 2]%nat /\
+    Forall finite m /\
+    (forall j, (j < 3)%nat -> B2Rf (nth (j * 3 + j) m 0%float) <> 0) /\
+    (forall i j k, (i < 3)%nat -> (j < 3)%nat -> (k < Nat.min i j)%nat ->
+       B2Rf (nth (i * 3 + k) m 0%float) * B2Rf (nth (k * 3 + j) m 0%float) = 0 \/
+       / 2 ^ 1022 <= Rabs (B2Rf (nth (i * 3 + k) m 0%float) * B2Rf (nth (k * 3 + j) m 0%float))) /\
+    (forall i j, (i < 3)%nat -> (j < i)%nat ->
+       let s := (nth (nth i piv 0%nat * 3 + j) a 0
+                 - fold_left (fun acc k => acc + nth (i * 3 + k) m 0 * nth (k * 3 + j) m 0) (seq 0 j) 0)%float in
+       B2Rf s / B2Rf (nth (j * 3 + j) m 0%float) = 0 \/ / 2 ^ 1022 <= Rabs (B2Rf s / B2Rf (nth (j * 3 + j) m 0%float))) /\
+    3 * B2Rf (nth 3 m 0%float) <> 1.
+Proof. exact lu_pivoted_example. Qed.
+
+(** ... and without: [[3,1,1],[1,3,1],[1,1,3]] (every pivot already on the diagonal) *)
+Example C11_example_lu_backward_error_no_row_swap :
+  let a := [3; 1; 1;  1; 3; 1;  1; 1; 3]%float in
+  exists m,
+    lu FO0 a = Some (m, seq 0 3) /\ (3 * 3)%nat = length a /\
+    Forall finite m /\
+    (forall j, (j < 3)%nat -> B2Rf (nth (j * 3 + j) m 0%float) <> 0) /\
+    (forall i j k, (i < 3)%nat -> (j < 3)%nat -> (k < Nat.min i j)%nat ->
+       B2Rf (nth (i * 3 + k) m 0%float) * B2Rf (nth (k * 3 + j) m 0%float) = 0 \/
+       / 2 ^ 1022 <= Rabs (B2Rf (nth (i * 3 + k) m 0%float) * B2Rf (nth (k * 3 + j) m 0%float))) /\
+    (forall i j, (i < 3)%nat -> (j < i)%nat ->
+       let s := (nth (i * 3 + j) a 0
+                 - fold_left (fun acc k => acc + nth (i * 3 + k) m 0 * nth (k * 3 + j) m 0) (seq 0 j) 0)%float in
+       B2Rf s / B2Rf (nth (j * 3 + j) m 0%float) = 0 \/ / 2 ^ 1022 <= Rabs (B2Rf s / B2Rf (nth (j * 3 + j) m 0%float))) /\
+    3 * B2Rf (nth 3 m 0%float) <> 1.
+Proof. exact lu_no_swap_example. Qed.
+
+(** ** Floating point (extension, fourth link): the two COLUMN SWEEPS of [lu_solve] on binary64
+
+    [lu_solve] copies [b] through the pivot vector and runs a forward sweep with the unit lower triangle and a
+    backward sweep with the upper triangle, both column-oriented ([for k { for i { x[i] -= x[k] * lu[i*n+k] } }]).
+    Row by row (recurrences below, every carrier) they perform
+         y_i = ( ... ((b'_i - y_0 l_i0) - y_1 l_i1) ... - y_(i-1) l_i,i-1 ) ,          b'_i = b[piv[i]] ,
+         x_i = ( ... ((y_i - x_(n-1) u_i,n-1) - x_(n-2) u_i,n-2) ... - x_(i+1) u_i,i+1 ) / u_ii ,
+    every operation rounded.  With the errors of the subtractions and of the division taken relative to the ROUNDED
+    values only the matrix is perturbed:  | P b - L y |_i <= gamma_n (|L||y|)_i ,  | y - U x |_i <= gamma_n (|U||x|)_i
+    (row i even with exponent i resp. n - i), equivalently  L' y = P b,  U' x = y  with |L' - L| <= gamma_n |L|,
+    |U' - U| <= gamma_n |U| entrywise (L', U' written down, [b] unperturbed),  gamma_n = (1 + 2^-53)^n - 1.
+    Hypotheses: the pivot vector has length n;  computed y and x finite (no overflow);  nonzero pivots;  no product
+    y_k l_ik, x_k u_ik and no quotient s_i / u_ii underflows ([y] is the vector after the forward sweep, a subterm of
+    the model).  Composed with [C11_lu_backward_error_binary64] in property C01 ([C01_lu_branch_backward_error_binary64]). *)
+From Compute Require Import Proofs.C11_FloatLUSolve.
+
+Theorem C11_lu_solve_sweeps_recurrence :
+  forall (T : Type) (O : Ops T) (M : list (list T)) (n : nat) (x0 : list T),
+    length x0 = n ->
+    let y := fwd_elim O M n x0 in let x := back_elim O M n y in
+    length y = n /\ length x = n /\
+    (forall i, (i < n)%nat ->
+       nth i y (zero O) =
+       fold_left (fun s k => sub O s (mul O (nth k y (zero O)) (ent (zero O) M i k))) (seq 0 i) (nth i x0 (zero O))) /\
+    (forall i, (i < n)%nat ->
+       nth i x (zero O) =
+       div O (fold_left (fun s k => sub O s (mul O (nth k x (zero O)) (ent (zero O) M i k)))
+                        (rev (seq (S i) (n - S i))) (nth i y (zero O)))
+             (ent (zero O) M i i)).
+Proof. exact @lu_solve_sweeps_recurrence. Qed.
+
+Theorem C11_lu_solve_backward_error_binary64 :
+  forall (tbl : libm_table) (m : list float) (piv : list nat) (b y x : list float) (n : nat),
+    lu_solve (FO tbl) m piv b = Some x -> length b = n -> length piv = n ->
+    y = fwd_elim (FO tbl) (unflatten m n n) n (map (fun p => nth p b 0%float) piv) ->
+    Forall finite y -> Forall finite x ->
+    (forall i, (i < n)%nat -> B2Rf (nth (i * n + i) m 0%float) <> 0) ->
+    (forall i k, (i < n)%nat -> (k < i)%nat ->
+       B2Rf (nth k y 0%float) * B2Rf (nth (i * n + k) m 0%float) = 0 \/
+       / 2 ^ 1022 <= Rabs (B2Rf (nth k y 0%float) * B2Rf (nth (i * n + k) m 0%float))) ->
+    (forall i k, (i < k)%nat -> (k < n)%nat ->
+       B2Rf (nth k x 0%float) * B2Rf (nth (i * n + k) m 0%float) = 0 \/
+       / 2 ^ 1022 <= Rabs (B2Rf (nth k x 0%float) * B2Rf (nth (i * n + k) m 0%float))) ->
+    (forall i, (i < n)%nat ->
+       let s := fold_left (fun s k => (s - nth k x 0 * nth (i * n + k) m 0)%float) (rev (seq (S i) (n - S i))) (nth i y 0%float) in
+       B2Rf s / B2Rf (nth (i * n + i) m 0%float) = 0 \/ / 2 ^ 1022 <= Rabs (B2Rf s / B2Rf (nth (i * n + i) m 0%float))) ->
+    let M := map B2Rf m in let B := map B2Rf b in let Y := map B2Rf y in let X := map B2Rf x in
+    let gamma := (1 + / 2 ^ 53) ^ n - 1 in
+    length m = (n * n)%nat /\ x = back_elim (FO tbl) (unflatten m n n) n y /\ length x = n /\
+    (forall i, (i < n)%nat -> finite (nth (nth i piv 0%nat) b 0%float)) /\
+    (forall i, (i < n)%nat ->
+       Rabs (nth (nth i piv 0%nat) B 0 - rsum (fun k => Lof M n i k * nth k Y 0) n)
+       <= gamma * rsum (fun k => Rabs (Lof M n i k) * Rabs (nth k Y 0)) n) /\
+    (forall i, (i < n)%nat ->
+       Rabs (nth i Y 0 - rsum (fun k => Uof M n i k * nth k X 0) n)
+       <= gamma * rsum (fun k => Rabs (Uof M n i k) * Rabs (nth k X 0)) n) /\
+    exists L' U' : list R,
+      length L' = (n * n)%nat /\ length U' = (n * n)%nat /\
+      (forall i k, (i < n)%nat -> (k < n)%nat -> Rabs (getm L' n i k - Lof M n i k) <= gamma * Rabs (Lof M n i k)) /\
+      (forall k j, (k < n)%nat -> (j < n)%nat -> Rabs (getm U' n k j - Uof M n k j) <= gamma * Rabs (Uof M n k j)) /\
+      (forall i, (i < n)%nat -> mvec L' n Y i = nth (nth i piv 0%nat) B 0) /\
+      (forall i, (i < n)%nat -> mvec U' n X i = nth i Y 0) /\
+      (forall i, (i < n)%nat -> rsum (fun k => getm L' n i k * mvec U' n X k) n = nth (nth i piv 0%nat) B 0).
+Proof. exact lu_solve_backward_error. Qed.
+
+(** [Solve<Vector>::lu_solve] (the Matrix method) runs the slice routine on the receiver's data *)
+Theorem C11_lu_solve_backward_error_matrix_binary64 :
+  forall (tbl : libm_table) (mm : matrix (T:=float)) (piv : list nat) (b y x : list float),
+    matrix_lu_solve (FO tbl) mm piv b = Some x ->
+    let n := nr mm in let m := dat mm in
+    length piv = n ->
+    y = fwd_elim (FO tbl) (unflatten m n n) n (map (fun p => nth p b 0%float) piv) ->
+    Forall finite y -> Forall finite x ->
+    (forall i, (i < n)%nat -> B2Rf (nth (i * n + i) m 0%float) <> 0) ->
+    (forall i k, (i < n)%nat -> (k < i)%nat ->
+       B2Rf (nth k y 0%float) * B2Rf (nth (i * n + k) m 0%float) = 0 \/
+       / 2 ^ 1022 <= Rabs (B2Rf (nth k y 0%float) * B2Rf (nth (i * n + k) m 0%float))) ->
+    (forall i k, (i < k)%nat -> (k < n)%nat ->
+       B2Rf (nth k x 0%float) * B2Rf (nth (i * n + k) m 0%float) = 0 \/
+       / 2 ^ 1022 <= Rabs (B2Rf (nth k x 0%float) * B2Rf (nth (i * n + k) m 0%float))) ->
+    (forall i, (i < n)%nat ->
+       let s := fold_left (fun s k => (s - nth k x 0 * nth (i * n + k) m 0)%float) (rev (seq (S i) (n - S i))) (nth i y 0%float) in
+       B2Rf s / B2Rf (nth (i * n + i) m 0%float) = 0 \/ / 2 ^ 1022 <= Rabs (B2Rf s / B2Rf (nth (i * n + i) m 0%float))) ->
+    let M := map B2Rf m in let B := map B2Rf b in let Y := map B2Rf y in let X := map B2Rf x in
+    let gamma := (1 + / 2 ^ 53) ^ n - 1 in
+    length b = n /\ length x = n /\
+    exists L' U' : list R,
+      length L' = (n * n)%nat /\ length U' = (n * n)%nat /\
+      (forall i k, (i < n)%nat -> (k < n)%nat -> Rabs (getm L' n i k - Lof M n i k) <= gamma * Rabs (Lof M n i k)) /\
+      (forall k j, (k < n)%nat -> (j < n)%nat -> Rabs (getm U' n k j - Uof M n k j) <= gamma * Rabs (Uof M n k j)) /\
+      (forall i, (i < n)%nat -> mvec L' n Y i = nth (nth i piv 0%nat) B 0) /\
+      (forall i, (i < n)%nat -> mvec U' n X i = nth i Y 0) /\
+      (forall i, (i < n)%nat -> rsum (fun k => getm L' n i k * mvec U' n X k) n = nth (nth i piv 0%nat) B 0).
+Proof. exact matrix_lu_solve_backward_error. Qed.
+
+(** satisfiable: the factors of [[1,3,1],[3,1,1],[1,1,3]] (pivot vector [1;0;2]) and b = (1,1,1), inside Coq on binary64 *)
+Example C11_example_lu_solve_backward_error :
+  let a := [1; 3; 1;  3; 1; 1;  1; 1; 3]%float in let b := [1; 1; 1]%float in
+  exists m piv y x,
+    lu FO0 a = Some (m, piv) /\ lu_solve FO0 m piv b = Some x /\ length b = 3%nat /\ length piv = 3%nat /\
+    y = fwd_elim FO0 (unflatten m 3 3) 3 (map (fun p => nth p b 0%float) piv) /\
+    Forall finite y /\ Forall finite x /\
+    (forall i, (i < 3)%nat -> B2Rf (nth (i * 3 + i) m 0%float) <> 0) /\
+    (forall i k, (i < 3)%nat -> (k < i)%nat ->
+       B2Rf (nth k y 0%float) * B2Rf (nth (i * 3 + k) m 0%float) = 0 \/
+       / 2 ^ 1022 <= Rabs (B2Rf (nth k y 0%float) * B2Rf (nth (i * 3 + k) m 0%float))) /\
+    (forall i k, (i < k)%nat -> (k < 3)%nat ->
+       B2Rf (nth k x 0%float) * B2Rf (nth (i * 3 + k) m 0%float) = 0 \/
+       / 2 ^ 1022 <= Rabs (B2Rf (nth k x 0%float) * B2Rf (nth (i * 3 + k) m 0%float))) /\
+    (forall i, (i < 3)%nat ->
+       let s := fold_left (fun s k => (s - nth k x 0 * nth (i * 3 + k) m 0)%float) (rev (seq (S i) (3 - S i))) (nth i y 0%float) in
+       B2Rf s / B2Rf (nth (i * 3 + i) m 0%float) = 0 \/ / 2 ^ 1022 <= Rabs (B2Rf s / B2Rf (nth (i * 3 + i) m 0%float))).
+Proof. exact lu_solve_example. Qed.
